@@ -1,7 +1,7 @@
 (* C16 -- abandoned and timed-out calls leave a usable, uncorrupted client.
    A call run with budget [Some k] is dropped at its (k+1)-th Pending poll (CRAbandoned); a call whose
    scripts run dry is left pending (CRWait) -- the state it leaves is what dropping the future leaves. *)
-From TM Require Import Base Frame Pdu RtuCodec Framed Client Sync FramedProofs FramedMore ClientProofs Histories.
+From TM Require Import Base Frame Pdu RtuCodec Framed Client Sync FramedProofs FramedMore ClientProofs Histories Abandon.
 
 (* over the client's lifetime -- any history of completed, failed and abandoned calls -- the bytes that
    reached the transport followed by the bytes still buffered are a concatenation of whole request
@@ -38,3 +38,30 @@ Theorem C16_timeout_wrapper : forall r,
   with_timeout true r = match r with CRWait | CRAbandoned => CRTransport KTimedOut | _ => r end
   /\ with_timeout false r = r.
 Proof. intros r. destruct r; split; reflexivity. Qed.
+
+(* THE NEXT CALL PERFORMS A NORMAL EXCHANGE, whatever came before ([Abandon.v]).  [usable]: connected, no latched
+   framing error, framing layer not at end of stream, transport script without end-of-stream events.  A history is any
+   list of calls -- each with its own budget of Pending polls after which its future is dropped (None = never), its own
+   write / flush scripts and its own read script (fragments of replies, pendings, read errors) -- and slave changes. *)
+Theorem C16_history_keeps_usable : forall p m ops st, usable st -> Forall op_no_eof ops -> usable (run_ops p m st ops).
+Proof. exact history_usable. Qed.
+Theorem C16_exchange_after_any_history : forall p m ops st0 req bg f rr cs rest w bg1 ws fs,
+  usable st0 -> Forall op_no_eof ops ->
+  let st := push (run_ops p m st0 ops) ws fs (datas cs) in
+  send (client_enc p m (req_hdr p st) req) (wio_ st) bg = (SOk, w, bg1, false) ->
+  rq (run_ops p m st0 ops) = [] ->
+  Forall nonempty cs -> concat cs = f ++ rest -> client_valid p f (req_hdr p st, rr) ->
+  fc_value (rr_fc rr) = fc_value (req_fc req) ->
+  fst (call p m st req bg) = match rr with RROk r => CROk r | RRExc e => CRExc (exr_exception e) end.
+Proof. exact exchange_after_any_history. Qed.
+(* non-vacuity: an RTU call dropped at its first Pending poll in the receive phase, after two bytes of its reply have
+   been read, is such a history: it is abandoned, its script is used up, the fragment is in the receive buffer *)
+Example C16_abandoned_after_fragment :
+  let ops := [OCall false (ReqReadHoldingRegisters 1 1) (Some O) [] [] [RData [5; 3]; RPend]] in
+  let st := run_ops RTU debug_mode (client_new RTU 5) ops in
+  usable (client_new RTU 5) /\ Forall op_no_eof ops /\ rq st = [] /\ rbuf (rst st) = [5; 3]
+  /\ fst (call RTU debug_mode (push (client_new RTU 5) [] [] [RData [5; 3]; RPend]) (ReqReadHoldingRegisters 1 1) (Some O)) = CRAbandoned.
+Proof.
+  cbv zeta. split; [repeat split; intros e []|]. split; [constructor; [|constructor]; intros e [<-|[<-|[]]]; reflexivity|].
+  vm_compute. repeat split.
+Qed.
